@@ -79,7 +79,7 @@ mod vk_iter {
                 if e.loc == 2 && e.kind == 1 {
                     assert!(admitted, "[C07 C09 iter-publish-holder] only the admitted ticket holder advances `yielded`");
                     assert!(!published, "[C09 iter-publish-once] `yielded` is advanced once");
-                    assert!(e.arg == n, "[C09 C01 C02 iter-publish-whole] the holder advances `yielded` by its whole reservation");
+                    assert!(e.arg == n, "[C09 C01 C02 C12 iter-publish-whole] the holder advances `yielded` by its whole reservation");
                     assert!(is_rel(e.ord), "[C07 iter-publish-ord] the fetch_add that publishes the critical section is at least Release");
                     published = true;
                 }
@@ -95,7 +95,7 @@ mod vk_iter {
             assert!(flag_true_seen || passed_seen, "[C09 C05 C06 C01 C12 iter-give-up] a pull gives up its reservation only after it observed `completed` or `yielded` beyond its ticket (otherwise later tickets wait for it forever)");
         }
         if admitted && !flag_true_seen {
-            assert!(published, "[C09 iter-progress] a ticket holder that returns has advanced `yielded` by its reservation or set `completed`");
+            assert!(published, "[C09 C12 C01 iter-progress] a ticket holder that returns has advanced `yielded` by its reservation or set `completed`");
         }
         let _ = buffered;
         (b, admitted, items, ended)
